@@ -1,5 +1,7 @@
 #!/bin/sh
 # Serialised build of the Coq development (shared lock with ./check).
-# usage: tools/coqbuild.sh            -> regenerate Makefile from _CoqProject and make
+# usage: tools/coqbuild.sh                 -> regenerate Makefile from _CoqProject and make everything (-k)
+#        tools/coqbuild.sh theories/X/Y.vo -> build only the given targets (and what they depend on)
 mkdir -p /verif/work
-exec flock /verif/work/coq.lock sh -c 'cd /verif/coq && coq_makefile -f _CoqProject -o Makefile >/dev/null 2>&1 && timeout 3000 make -j8 2>&1 | grep -v "^COQ\|^Closed under the global context" | head -60'
+T="$*"
+exec flock /verif/work/coq.lock sh -c "cd /verif/coq && coq_makefile -f _CoqProject -o Makefile >/dev/null 2>&1 && timeout 3000 make -k -j8 $T 2>&1 | grep -v '^COQ\|^Closed under the global context\|^make' | head -60"
